@@ -1037,3 +1037,14 @@ package main
 //@   atcall mvdan.cc/sh/v3/shell.Expand sets ghostSSHMapper sshMapperFn (s string, env sshMapperFn, out string, err error) :: env
 //@   loop 1 (userExtensions map[string]string, mapper sshMapperFn, rangeindex int) invariant (forall j int :: 0 <= j && j <= rangeindex ==> hasKey(userExtensions, shellExpanded(state.Config.Base.SSHCertConfig.Extensions[j].Key, mapper))) && (rangeindex >= 0 ==> same(ghostSSHMapper, mapper))   #C02.configured-extension-scan @C02
 //@   ensures ret1 == nil ==> (forall j int :: 0 <= j && j < len(state.Config.Base.SSHCertConfig.Extensions) ==> hasKey(ret0, shellExpanded(state.Config.Base.SSHCertConfig.Extensions[j].Key, ghostSSHMapper)))   #C02.every-configured-extension-is-handed-on @C02
+
+// ---- C19 "every key type the client offers is one the server will certify": the key the server judges is the whole
+// file the client uploaded (read from the upload itself, not through a wrapper that may cut a long RSA key short)
+//@ import "mime/multipart"
+//@ ghost var ghostUpload multipart.File
+//@ func (*RuntimeState).postAuthSSHCertHandler
+//@   atcall (*net/http.Request).FormFile sets ghostUpload multipart.File (r2 *http.Request, key string, f multipart.File, h *multipart.FileHeader, err error) :: f
+//@   atcall (*bytes.Buffer).ReadFrom requires (b *bytes.Buffer, rd io.Reader) :: rd == io.Reader(ghostUpload)   #C19.the-whole-uploaded-ssh-key-is-judged @C19,C10
+//@ func (*RuntimeState).postAuthX509CertHandler
+//@   atcall (*net/http.Request).FormFile sets ghostUpload multipart.File (r2 *http.Request, key string, f multipart.File, h *multipart.FileHeader, err error) :: f
+//@   atcall (*bytes.Buffer).ReadFrom requires (b *bytes.Buffer, rd io.Reader) :: rd == io.Reader(ghostUpload)   #C19.the-whole-uploaded-x509-key-is-judged @C19,C10
